@@ -67,6 +67,9 @@ Inductive op : Type :=
 | ORead (cf : config) (sh : list (list cval)) (qkeys : list str) (whole : bool)
         (* whole = the entry point returns a list (read_table, read_list): nothing on an exception;
            otherwise a generator (iter_table, iter_xls): the items yielded before the exception *)
+| OReadM (mc : mconfig) (sh : list (list cval)) (qkeys : list str)
+        (* XlsTableReader(rules_1, ..., rules_n).iter_table: every row yields a tuple of n objects; the
+           caller holds the objects of all tuples, here in one list (row by row, n per row) *)
 | OMut (r j a : nat) (inner : option str) (m : str).
 
 Definition do_read (cf : config) (sh : list (list cval)) (qkeys : list str) (whole : bool) : reading :=
@@ -76,12 +79,16 @@ Definition do_read (cf : config) (sh : list (list cval)) (qkeys : list str) (who
   | _, _ => mkReading items e qkeys
   end.
 
+Definition do_read_m (mc : mconfig) (sh : list (list cval)) (qkeys : list str) : reading :=
+  let (items, e) := read_table_m mc sh in mkReading (concat items) e qkeys.
+
 Definition mut_reading (j a : nat) (inner : option str) (m : str) (rd : reading) : reading :=
   mkReading (upd_nth j (option_map (mut_obj a inner m)) (rd_items rd)) (rd_err rd) (rd_qkeys rd).
 
 Definition step (st : list reading) (o : op) : list reading :=
   match o with
   | ORead cf sh qk w => st ++ [do_read cf sh qk w]
+  | OReadM mc sh qk => st ++ [do_read_m mc sh qk]
   | OMut r j a inner m => upd_nth r (mut_reading j a inner m) st
   end.
 
